@@ -17,6 +17,8 @@ Expression level (E1)
   range(0, n)              -> range(n)
   f(a, b) on a callee of the package -> f(p=a, q=b)         (bound through the callee's own parameter list)
 Signature: annotations dropped; a trailing parameter with a constant default that the body never reads is dropped.
+Constants: a module-level `NAME = <number|string>` and a local bound once to a literal expression read as their value;
+  arithmetic on literals is folded (2**14 -> 16384).
 Statement level (S)
   `name = <constant>` dropped when the name is never read; pass dropped; else: pass dropped; return None -> return
   if not c: A else: B      -> if c: B else: A              (also: if a != b / is not / not in ... else -> the positive test)
@@ -396,12 +398,78 @@ def _dead_constant_stores(fn):
     return changed
 
 
-def normal_form(fn, callee_info=None):
-    """A normalised private copy of the function definition node fn."""
+def _const_prop(fn, consts):
+    """Named constants read as their value: module-level `NAME = <number|string>` (consts) and locals bound exactly once to a
+    constant expression made of literals."""
+    from .astutil import try_fold
+    params = {a.arg for a in fn.args.posonlyargs + fn.args.args + fn.args.kwonlyargs}
+    if fn.args.vararg:
+        params.add(fn.args.vararg.arg)
+    if fn.args.kwarg:
+        params.add(fn.args.kwarg.arg)
+    stores = {}
+    for n in ast.walk(fn):
+        if isinstance(n, ast.Name) and isinstance(n.ctx, (ast.Store, ast.Del)):
+            stores[n.id] = stores.get(n.id, 0) + 1
+        elif isinstance(n, (ast.Global, ast.Nonlocal)):
+            for x in n.names:
+                stores[x] = stores.get(x, 0) + 2
+    local_consts = {}
+    for st in fn.body:
+        if isinstance(st, ast.Assign) and len(st.targets) == 1 and isinstance(st.targets[0], ast.Name) and stores.get(st.targets[0].id) == 1 \
+                and st.targets[0].id not in params:
+            v = st.value
+            if all(isinstance(x, (ast.Constant, ast.BinOp, ast.UnaryOp, ast.operator, ast.unaryop, ast.expr_context)) for x in ast.walk(v)):
+                k = try_fold(v)
+                if isinstance(k, (int, float, str)) and not isinstance(k, bool):
+                    local_consts[st.targets[0].id] = (k, st)
+    mapping = {}
+    for name, v in (consts or {}).items():
+        if name not in stores and name not in params:
+            mapping[name] = v
+    for name, (k, st) in local_consts.items():
+        mapping[name] = k
+    if not mapping:
+        return False
+
+    class P(ast.NodeTransformer):
+        def visit_Name(self, n):
+            if isinstance(n.ctx, ast.Load) and n.id in mapping:
+                return ast.copy_location(ast.Constant(value=mapping[n.id]), n)
+            return n
+    P().visit(fn)
+    drop = {id(st) for k, st in local_consts.values()}
+    fn.body = [st for st in fn.body if id(st) not in drop] or [ast.Pass()]
+    return True
+
+
+class _FoldConst(ast.NodeTransformer):
+    """2**14 -> 16384, -1*3 -> -3: arithmetic on literals only."""
+    def visit_BinOp(self, n):
+        self.generic_visit(n)
+        if isinstance(n.left, ast.Constant) and isinstance(n.right, ast.Constant) and not isinstance(n.left.value, (str, bytes, bool)) \
+                and not isinstance(n.right.value, (str, bytes, bool)) and isinstance(n.left.value, (int, float)) and isinstance(n.right.value, (int, float)):
+            from .astutil import try_fold
+            k = try_fold(n)
+            if isinstance(k, (int, float)) and not isinstance(k, bool) and abs(k) < 2 ** 80:
+                return ast.copy_location(ast.Constant(value=k), n)
+        return n
+
+    def visit_UnaryOp(self, n):
+        self.generic_visit(n)
+        if isinstance(n.op, ast.USub) and isinstance(n.operand, ast.Constant) and isinstance(n.operand.value, (int, float)) and not isinstance(n.operand.value, bool):
+            return ast.copy_location(ast.Constant(value=-n.operand.value), n)
+        return n
+
+
+def normal_form(fn, callee_info=None, consts=None):
+    """A normalised private copy of the function definition node fn.  consts: {module-level NAME: python constant}."""
     c = clone(fn)
     c.decorator_list = list(c.decorator_list)
     _strip_signature(c)
     _dead_constant_stores(c)
+    _const_prop(c, consts)
+    c = _FoldConst().visit(c)
     if c.body and isinstance(c.body[0], ast.Expr) and isinstance(c.body[0].value, ast.Constant) and isinstance(c.body[0].value.value, str):
         # indentation of a docstring is not content
         c.body[0].value.value = '\n'.join(l.strip() for l in c.body[0].value.value.strip().split('\n'))
@@ -419,6 +487,6 @@ def normal_form(fn, callee_info=None):
     return c
 
 
-def nf_key(fn, callee_info=None):
-    c = normal_form(fn, callee_info)
+def nf_key(fn, callee_info=None, consts=None):
+    c = normal_form(fn, callee_info, consts)
     return ast.dump(c, include_attributes=False)
